@@ -16451,6 +16451,15 @@ func (l *Lowerer) buildGlobalExprFor(
 			if !ok {
 				return 0, false
 			}
+			// The operand was a named constant: fold the negation of its literal.
+			if int(h) == len(l.module.GlobalExpressions)-1 {
+				if lit, isLit := l.module.GlobalExpressions[h].Kind.(ir.Literal); isLit {
+					if neg, ok := negatedLiteral(lit.Value); ok {
+						l.module.GlobalExpressions[h].Kind = ir.Literal{Value: neg}
+						return h, true
+					}
+				}
+			}
 			return addExpr(ir.ExprUnary{
 				Op:   ir.UnaryNegate,
 				Expr: h,
@@ -16461,7 +16470,23 @@ func (l *Lowerer) buildGlobalExprFor(
 	case *parser.Ident:
 		// Check abstract constants first.
 		if info, ok := l.abstractConstants[e.Name]; ok && info.scalarValue != nil {
-			lit := scalarValueToLiteral(*info.scalarValue)
+			sv := *info.scalarValue
+			var lit ir.LiteralValue
+			if expectedScalar != nil {
+				// An abstract constant takes the type of the component it initialises.
+				kind := sv.Kind
+				switch kind {
+				case ir.ScalarAbstractInt:
+					kind = ir.ScalarSint
+				case ir.ScalarAbstractFloat:
+					kind = ir.ScalarFloat
+				}
+				k, bits := coerceScalarToScalar(kind, sv.Bits, *expectedScalar)
+				lit = literalForScalar(ir.ScalarValue{Kind: k, Bits: bits}, *expectedScalar)
+			}
+			if lit == nil {
+				lit = scalarValueToLiteral(sv)
+			}
 			if lit != nil {
 				return addExpr(ir.Literal{Value: lit}), true
 			}
@@ -16488,6 +16513,23 @@ func (l *Lowerer) buildGlobalExprFor(
 	default:
 		return 0, false
 	}
+}
+
+// negatedLiteral returns the literal -v for the signed and floating-point kinds.
+func negatedLiteral(v ir.LiteralValue) (ir.LiteralValue, bool) {
+	switch x := v.(type) {
+	case ir.LiteralF32:
+		return ir.LiteralF32(-float32(x)), true
+	case ir.LiteralF64:
+		return ir.LiteralF64(-float64(x)), true
+	case ir.LiteralF16:
+		return ir.LiteralF16(-float32(x)), true
+	case ir.LiteralI32:
+		return ir.LiteralI32(-int32(x)), true
+	case ir.LiteralI64:
+		return ir.LiteralI64(-int64(x)), true
+	}
+	return nil, false
 }
 
 // expandZeroConstructGE creates explicit zero Literal + Compose global expressions
